@@ -44,3 +44,58 @@ Definition wf_b (w : world) (s : state) : bool :=
   && forallb (fun e => obj_ok (loaded s) (snd e)) (attrs s)
   && forallb (entry_ok (loaded s) (attrs s)) (loaded s)
   && forallb (attr_ok w (loaded s)) (attrs s).
+
+(* ---------- the invariant of C07 success_resolves_wf (Prop form; proofs in WfProofs.v) ---------- *)
+
+(* no module has a static attribute spelled like one of its importable submodules
+   (`sa = 1` in pa/__init__.py next to pa/sa.py): the shape behind finding F07a *)
+Definition noclash (w : world) : Prop :=
+  forall d k, In k (static_attrs w d) -> is_file w (d ++ [k]) = false.
+
+Record WF (w : world) (s : state) : Prop := {
+  (* sys.modules[d] is the module object of d (no proxies, no aliases) *)
+  wf_loaded : forall d o, assoc d (loaded s) = Some o -> o = OMod d;
+  (* a module object held by a namespace is the registered module of its name *)
+  wf_ns : forall n k d, In n (nss s) -> assoc k n = Some (OMod d) -> assoc d (loaded s) = Some (OMod d);
+  (* a module object held as an attribute is registered, and is a submodule (never a top-level module) *)
+  wf_attr_alive : forall o k d, get_attr (attrs s) o k = Some (OMod d) ->
+                    assoc d (loaded s) = Some (OMod d) /\ 2 <= length d;
+  (* only loaded modules have attributes *)
+  wf_attr_owner : forall d k v, get_attr (attrs s) (OMod d) k = Some v -> assoc d (loaded s) <> None;
+  (* a loaded submodule is an attribute of its (loaded) parent *)
+  wf_parent : forall d, assoc d (loaded s) <> None -> parent d <> [] ->
+                assoc (parent d) (loaded s) <> None /\
+                get_attr (attrs s) (OMod (parent d)) (last d 0%N) = Some (OMod d);
+  (* an attribute spelled like an importable submodule is that submodule *)
+  wf_sub : forall d k v, get_attr (attrs s) (OMod d) k = Some v -> is_file w (d ++ [k]) = true -> v = OMod (d ++ [k])
+}.
+
+(* boolean checkers (sufficient conditions, WfProofs.wfp_b_sound / noclash_b_sound), evaluated by the
+   harness on the initial state of every generated case *)
+Definition is_omod (o : obj) : option dotted := match o with OMod d => Some d | _ => None end.
+Definition reg_ok (ld : list (dotted * obj)) (v : obj) : bool :=
+  match v with
+  | OMod d => match assoc d ld with Some m => obj_eqb m (OMod d) | None => false end
+  | _ => true
+  end.
+Definition wfp_b (w : world) (s : state) : bool :=
+  forallb (fun e => obj_eqb (snd e) (OMod (fst e))) (loaded s)
+  && forallb (fun n => forallb (fun kv => reg_ok (loaded s) (snd kv)) n) (nss s)
+  && forallb (fun e => reg_ok (loaded s) (snd e)
+                       && match snd e with OMod d => Nat.leb 2 (length d) | _ => true end
+                       && match fst (fst e) with
+                          | OMod d => match assoc d (loaded s) with Some _ => true | None => false end
+                                      && (if is_file w (d ++ [snd (fst e)]) then obj_eqb (snd e) (OMod (d ++ [snd (fst e)])) else true)
+                          | _ => true
+                          end) (attrs s)
+  && forallb (fun e => match parent (fst e) with
+                       | [] => true
+                       | par => match assoc par (loaded s), get_attr (attrs s) (OMod par) (last (fst e) 0%N) with
+                                | Some _, Some v => obj_eqb v (OMod (fst e))
+                                | _, _ => false
+                                end
+                       end) (loaded s).
+
+Definition noclash_b (mods : list (dotted * modinfo)) : bool :=
+  let w := fun d => assoc d mods in
+  forallb (fun e => forallb (fun k => negb (is_file w (fst e ++ [k]))) (mi_attrs (snd e))) mods.
